@@ -24,6 +24,12 @@ type C19Case struct {
 	P2     float64      `json:"p2"`
 	Zoom   int          `json:"zoom"`
 	Pts    [][2]float64 `json:"pts"` // lon, lat
+	// Order: 0 origin/centre first then parallels, 1 parallels first, 2 both set to other values first and
+	// then re-set (re-configuration must leave no stale state).  Omit: bit 0 = the origin/centre/meridian
+	// setter is not called (the case then uses the default (0,0)), bit 1 = the standard-parallel setter is
+	// not called (only where the default is documented: Albers 30/60, equirectangular equator).
+	Order int `json:"order,omitempty"`
+	Omit  int `json:"omit,omitempty"`
 }
 
 var c19Projs = []string{"albers", "azimuthal", "equidistantconic", "equirectangular", "lambertconformal", "lambertcylindrical", "orthographic", "sinusoidal", "webmercator"}
@@ -35,42 +41,72 @@ type c19Projection interface {
 
 func c19Build(c C19Case) c19Projection {
 	o := geom.XY{X: c.Lon0, Y: c.Lat0}
+	other := geom.XY{X: c.Lon0/2 + 17, Y: -c.Lat0/2 + 11}
+	// configure runs the two setters in the drawn order, optionally after setting other values first, and
+	// leaves out the ones the case omits
+	configure := func(origin func(geom.XY), parallels func(p1, p2 float64)) {
+		steps := []func(){}
+		so := func() {
+			if origin != nil && c.Omit&1 == 0 {
+				origin(o)
+			}
+		}
+		sp := func() {
+			if parallels != nil && c.Omit&2 == 0 {
+				parallels(c.P1, c.P2)
+			}
+		}
+		switch c.Order {
+		case 1:
+			steps = append(steps, sp, so)
+		case 2:
+			steps = append(steps, func() {
+				if origin != nil && c.Omit&1 == 0 {
+					origin(other)
+				}
+				if parallels != nil && c.Omit&2 == 0 {
+					parallels(c.P2/2+20, c.P1/3-35)
+				}
+			}, sp, so)
+		default:
+			steps = append(steps, so, sp)
+		}
+		for _, st := range steps {
+			st()
+		}
+	}
 	switch c.Proj {
 	case "albers":
 		p := carto.NewAlbersEqualAreaConic(c.Radius)
-		p.SetOrigin(o)
-		p.SetStandardParallels(c.P1, c.P2)
+		configure(p.SetOrigin, p.SetStandardParallels)
 		return p
 	case "azimuthal":
 		p := carto.NewAzimuthalEquidistant(c.Radius)
-		p.SetCenter(o)
+		configure(p.SetCenter, nil)
 		return p
 	case "equidistantconic":
 		p := carto.NewEquidistantConic(c.Radius)
-		p.SetOrigin(o)
-		p.SetStandardParallels(c.P1, c.P2)
+		configure(func(o geom.XY) { p.SetOrigin(o) }, func(a, b float64) { p.SetStandardParallels(a, b) })
 		return p
 	case "equirectangular":
 		p := carto.NewEquirectangular(c.Radius)
-		p.SetCentralMeridian(c.Lon0)
-		p.SetStandardParallels(c.P1)
+		configure(func(o geom.XY) { p.SetCentralMeridian(o.X) }, func(a, _ float64) { p.SetStandardParallels(a) })
 		return p
 	case "lambertconformal":
 		p := carto.NewLambertConformalConic(c.Radius)
-		p.SetOrigin(o)
-		p.SetStandardParallels(c.P1, c.P2)
+		configure(p.SetOrigin, p.SetStandardParallels)
 		return p
 	case "lambertcylindrical":
 		p := carto.NewLambertCylindricalEqualArea(c.Radius)
-		p.SetCentralMeridian(c.Lon0)
+		configure(func(o geom.XY) { p.SetCentralMeridian(o.X) }, nil)
 		return p
 	case "orthographic":
 		p := carto.NewOrthographic(c.Radius)
-		p.SetCenter(o)
+		configure(p.SetCenter, nil)
 		return p
 	case "sinusoidal":
 		p := carto.NewSinusoidal(c.Radius)
-		p.SetCentralMeridian(c.Lon0)
+		configure(func(o geom.XY) { p.SetCentralMeridian(o.X) }, nil)
 		return p
 	default:
 		return carto.NewWebMercator(c.Zoom)
@@ -134,6 +170,22 @@ func c19Gen(t *rapid.T, cx *h.Ctx) C19Case {
 		c.P1 = float64(rapid.IntRange(-80, 80).Draw(t, "eqp1"))
 	}
 	c.Zoom = rapid.IntRange(0, 30).Draw(t, "zoom")
+	// configuration history: setter order, re-configuration, setters left at their documented defaults
+	c.Order = rapid.IntRange(0, 2).Draw(t, "order")
+	c.Omit = rapid.SampledFrom([]int{0, 0, 0, 1, 2, 3}).Draw(t, "omit")
+	if c.Omit&2 != 0 {
+		switch c.Proj {
+		case "albers":
+			c.P1, c.P2 = 30, 60 // "The standard parallels are set to 30 and 60 degrees north"
+		case "equirectangular":
+			c.P1 = 0 // equator
+		default:
+			c.Omit &^= 2
+		}
+	}
+	if c.Omit&1 != 0 {
+		c.Lon0, c.Lat0 = 0, 0
+	}
 	n := c19ConeConstant(c)
 	// points: graticule points, random points, the centre/origin, points on the standard parallels
 	np := rapid.IntRange(4, 16).Draw(t, "npts")
@@ -344,7 +396,7 @@ func TestC19(t *testing.T) {
 	h.Run(t, h.Prop[C19Case]{
 		ID:              "C19",
 		WholeCheckLimit: 300 * time.Second,
-		Rule:            "cases = one of the 9 carto projections with a drawn configuration (centre/origin over the sphere incl. the default and, for the two azimuthal projections, exactly and nearly polar centres, standard parallels in both hemispheres and orders with |p1-p2| >= 5 and |p1+p2| >= 10 degrees, radius 1 / WGS84 mean / WGS84 equatorial / 6371, zoom 0..30) and 4..16 points: the centre/origin itself, points on the standard parallels, graticule points and random points, restricted to the well-conditioned domain (|lat| <= 85, within 60 degrees of arc for azimuthal/orthographic, |n x dlon| < 89 degrees for conics); plus the enumerated graticule (5-degree in quick, 1-degree in thorough) for 5 fixed configurations. Checks: Forward finite; Reverse(Forward(p)) within 1e-9 degrees (a NaN fails); Jacobian by central differences at 1e-4 degrees: equal-area det J = R^2 cos(lat) (Albers, Lambert cylindrical, sinusoidal), conformal J^T J = s^2 diag(cos^2 lat, 1) (Lambert conformal conic, web Mercator), azimuthal |Forward(p)| = R x great-circle angle, meridian scale 1 (equidistant conic, equirectangular), standard parallels true to scale, web Mercator world -> [0,2^zoom]^2, centre, y southward; relative tolerance 1e-6 on Jacobians. non-trivial = non-default centre/origin and a point >= 1 degree away",
+		Rule:            "cases = one of the 9 carto projections with a drawn configuration (centre/origin over the sphere incl. the default and, for the two azimuthal projections, exactly and nearly polar centres, standard parallels in both hemispheres and orders with |p1-p2| >= 5 and |p1+p2| >= 10 degrees, the setters called in either order, after a previous configuration, or left at their documented defaults, radius 1 / WGS84 mean / WGS84 equatorial / 6371, zoom 0..30) and 4..16 points: the centre/origin itself, points on the standard parallels, graticule points and random points, restricted to the well-conditioned domain (|lat| <= 85, within 60 degrees of arc for azimuthal/orthographic, |n x dlon| < 89 degrees for conics); plus the enumerated graticule (5-degree in quick, 1-degree in thorough) for 5 fixed configurations. Checks: Forward finite; Reverse(Forward(p)) within 1e-9 degrees (a NaN fails); Jacobian by central differences at 1e-4 degrees: equal-area det J = R^2 cos(lat) (Albers, Lambert cylindrical, sinusoidal), conformal J^T J = s^2 diag(cos^2 lat, 1) (Lambert conformal conic, web Mercator), azimuthal |Forward(p)| = R x great-circle angle, meridian scale 1 (equidistant conic, equirectangular), standard parallels true to scale, web Mercator world -> [0,2^zoom]^2, centre, y southward; relative tolerance 1e-6 on Jacobians. non-trivial = non-default centre/origin and a point >= 1 degree away",
 		Assumptions:     []string{"math package accuracy", "singular configurations (equal or symmetric standard parallels, cos(p1) = 0) are excluded"},
 		Gen:             c19Gen,
 		Check:           c19Check,
